@@ -533,6 +533,45 @@ def tagged_typedef_declarators(ctx):
                     ctx.event("tagged_typedef_declarators_checked")
 
 
+def conflicting_structure_redeclarations(ctx):
+    """A name that is bound to a structure cannot be silently re-declared with another layout: another bit width, bits
+    against no bits, another member type of the same size, another order -- the second declaration is refused (or, if it
+    were accepted, would have to win); the first layout never survives silently."""
+    first = "typedef struct { uint16 kind : 4; uint16 length : 12; uint8 body[2]; } record_t;"
+    seconds = ["typedef struct { uint16 kind : 8; uint16 length : 8; uint8 body[2]; } record_t;",
+               "typedef struct { uint16 kind; uint16 length; uint8 body[2]; } record_t;",
+               "typedef struct { uint16 kind : 4; uint16 length : 12; int8 body[2]; } record_t;",
+               "typedef struct { uint16 length : 12; uint16 kind : 4; uint8 body[2]; } record_t;",
+               "typedef union { uint16 kind : 4; uint16 length : 12; uint8 body[2]; } record_t;"]
+    data = bytes([0x23, 0x01, 0x02, 0x00, 0x09, 0x09])
+    for second in seconds:
+        for compiled in (True, False):
+            ctx.evaluation(("conflicting-redeclaration", second, compiled))
+            ctx.cell("conflicting-structure-redeclarations")
+            det = {"text": first, "variant": [first, second], "workload": "conflicting-redeclarations"}
+            try:
+                alone = lib.load(second, "<", False, compiled)
+                want = (len(alone.record_t), lib.stable_repr(alone.record_t(data)))
+                cs = lib.load(first, "<", False, compiled)
+                before = (len(cs.record_t), lib.stable_repr(cs.record_t(data)))
+                try:
+                    cs.load(second, compiled=compiled)
+                    accepted = True
+                except ValueError:
+                    accepted = False
+                after = (len(cs.record_t), lib.stable_repr(cs.record_t(data)))
+            except Exception as e:  # noqa: BLE001
+                ctx.violation("alias", f"redeclaration-workload-raises:{type(e).__name__}", dict(det, error=lib.exc_sig(e)))
+                continue
+            if accepted and after != want:
+                ctx.violation("alias", "conflicting-redeclaration-of-a-structure-accepted-and-ignored",
+                              dict(det, got=repr(after), want=repr(want), before=repr(before)))
+            elif not accepted and after != before:
+                ctx.violation("alias", "refused-redeclaration-changed-the-type", dict(det, got=repr(after), before=repr(before)))
+            else:
+                ctx.event("conflicting_redeclarations_checked")
+
+
 def enum_line_ends(ctx):
     """Enum members written one per line without commas (an extension the library supports): the same members whatever
     the line ends are (LF, CRLF, bare CR), with and without comments behind the members."""
@@ -698,6 +737,7 @@ def run(ctx):
         keyword_like_fields(ctx)
     if ctx.shard == 3:
         tagged_typedef_declarators(ctx)
+        conflicting_structure_redeclarations(ctx)
     if ctx.shard % 4 == 2:
         shared_names(ctx, ctx.rng("shared-names"), 8 if not ctx.thorough else 60)
     for i in range(N_CASES[ctx.tier]):
@@ -721,6 +761,7 @@ def replay(ctx, detail):
         string_constants(ctx)
         shared_names(ctx, ctx.rng("shared-names"), 8)
         tagged_typedef_declarators(ctx)
+        conflicting_structure_redeclarations(ctx)
         return
     try:
         cs = lib.cstruct(endian=cfgd["endian"])
